@@ -2,6 +2,7 @@ package dml
 
 import (
 	"fmt"
+	"strconv"
 	"strings"
 
 	"verif/harness/internal/rv"
@@ -955,13 +956,37 @@ func (o *Create) Content(s *State) string {
 // effect of Inner: a data-changing statement acts on the table wherever the table was declared.
 type Nested struct {
 	Inner Op
-	Kind  string // "if" | "while" | "func"
+	Kind  string // "if" | "while" | "func" | "commit" (a COMMIT before the statement)
 }
 
-func (n *Nested) ID() string             { return n.Inner.ID() + "@" + n.Kind }
-func (n *Nested) Class() string          { return n.Inner.Class() }
-func (n *Nested) Apply(s *State) Outcome { return n.Inner.Apply(s) }
-func (n *Nested) Tables() []string       { return n.Inner.Tables() }
+func (n *Nested) ID() string    { return n.Inner.ID() + "@" + n.Kind }
+func (n *Nested) Class() string { return n.Inner.Class() }
+func (n *Nested) Apply(s *State) Outcome {
+	if n.Kind == "commit" {
+		return n.Inner.Apply(Committed(s))
+	}
+	return n.Inner.Apply(s)
+}
+
+// Committed is the state a transaction works on after a COMMIT: file tables are read again from what was written,
+// so their cells are the texts of the file (temporary tables and the standard input keep their typed values).
+func Committed(s *State) *State {
+	c := s.Clone()
+	for _, t := range c.Tabs {
+		if t.Kind != File {
+			continue
+		}
+		for _, r := range t.Rows {
+			for i, v := range r {
+				if v.K == rv.Int {
+					r[i] = rv.S(strconv.FormatInt(v.I, 10))
+				}
+			}
+		}
+	}
+	return c
+}
+func (n *Nested) Tables() []string { return n.Inner.Tables() }
 func (n *Nested) SQL() string {
 	in := strings.TrimRight(strings.TrimSpace(n.Inner.SQL()), ";")
 	switch n.Kind {
@@ -969,6 +994,9 @@ func (n *Nested) SQL() string {
 		return "IF TRUE THEN VAR @nw := 0; WHILE @nw < 1 DO @nw := @nw + 1; " + in + "; END WHILE; END IF;"
 	case "func":
 		return "IF TRUE THEN DECLARE nf FUNCTION () AS BEGIN " + in + "; RETURN 1; END; VAR @nr := nf(); END IF;"
+	case "commit":
+		// what the transaction has changed so far is committed first: the statement works on the committed tables
+		return "COMMIT; " + in + ";"
 	}
 	return "IF TRUE THEN " + in + "; END IF;"
 }
